@@ -4,6 +4,7 @@ package main
 import (
 	"bytes"
 	"context"
+	"crypto/sha256"
 	"errors"
 	"fmt"
 	"github.com/transparency-dev/witness/internal/persistence"
@@ -169,6 +170,12 @@ func main() {
 		for _, forked := range []bool{false, true} {
 			pairReal(run, unit, r, dir, ws, ls, forked)
 		}
+	})
+	// (F) sizes near the top of the uint64 range (synthetic roots, accepting stub witness)
+	huge := []uint64{3, 1 << 32, 1 << 62, 1<<63 - 1, 1 << 63, 1<<63 + 10, 1<<64 - 1}
+	run.Floor("huge_pairs", int64(len(huge)*len(huge)))
+	run.Units("pairs_huge", len(huge)*len(huge), 0, func(unit int64, r *rand.Rand) {
+		hugePair(run, unit, r, huge[int(unit)/len(huge)], huge[int(unit)%len(huge)])
 	})
 	// (E) several cycles on one real witness that also advances through another entry point
 	run.Floor("chain_cycles", 100)
@@ -713,6 +720,91 @@ func chainReal(run *ev.Run, unit int64, r *rand.Rand, dir string) {
 		judgeAttempts(run, unit, l, s, evs, "chain", detail)
 		size = next
 	}
+}
+
+// hugePair: the witness stub holds size ws, the log publishes size ls, both possibly >= 2^63. Roots and
+// proofs are synthetic (the stub accepts anything): only the feeder's own decisions are judged - never submit
+// while the witness is ahead (one attempt, permanent error), old size = witness size, proof asked from
+// exactly the witness's checkpoint to the submitted one.
+func hugePair(run *ev.Run, unit int64, r *rand.Rand, ws, ls uint64) {
+	l := newLog(r)
+	root := func(n uint64) []byte { h := sha256.Sum256([]byte(fmt.Sprint("root", n))); return h[:] }
+	cpOf := func(n uint64, witnessed bool) []byte {
+		text := refnote.Body(l.Origin, n, root(n))
+		lines := []string{l.Key.SigLine(text)}
+		if witnessed {
+			lines = append(lines, "— witness.example AAAAAAAAAAAAAAAAAAAAAAAAAAAAAAAAAAAAAAAAAAAAAAAAAAAAAAAAAAAAAAAAAAAAAAAAAAAAAAAAAAAAAAAAAAAAAAAA")
+		}
+		return refnote.Assemble(text, lines...)
+	}
+	var mu sync.Mutex
+	gets, updates, proofs := 0, 0, 0
+	var bad []string
+	w := &funcWitness{
+		get: func() ([]byte, error) { mu.Lock(); gets++; mu.Unlock(); return cpOf(ws, true), nil },
+		update: func(old uint64, cp []byte, p [][]byte) ([]byte, error) {
+			mu.Lock()
+			defer mu.Unlock()
+			updates++
+			if old != ws {
+				bad = append(bad, fmt.Sprintf("Update with old size %d, the witness reported %d", old, ws))
+			}
+			if ws > ls {
+				bad = append(bad, fmt.Sprintf("Update called while the witness (%d) is ahead of the log (%d)", ws, ls))
+			}
+			return cpOf(ls, true), nil
+		},
+	}
+	v, _ := f_note.NewVerifier(l.Key.Vkey())
+	o := feeder.FeedOpts{LogID: l.ID, LogOrigin: l.Origin, LogSigVerifier: v, Witness: w,
+		FetchCheckpoint: func(ctx context.Context) ([]byte, error) { return cpOf(ls, false), nil },
+		FetchProof: func(ctx context.Context, from, to log.Checkpoint) ([][]byte, error) {
+			mu.Lock()
+			defer mu.Unlock()
+			proofs++
+			if from.Size != ws || to.Size != ls {
+				bad = append(bad, fmt.Sprintf("proof requested from %d to %d; witness at %d, log at %d", from.Size, to.Size, ws, ls))
+			}
+			return [][]byte{root(from.Size ^ to.Size)}, nil
+		}}
+	ctx, cancel := context.WithTimeout(context.Background(), 2*time.Second)
+	defer cancel()
+	_, err := feeder.FeedOnce(ctx, o)
+	run.Count("evaluations")
+	run.Count("huge_pairs")
+	rel := "grow"
+	switch {
+	case ws == ls:
+		rel = "equal"
+	case ws > ls:
+		rel = "ahead"
+	}
+	run.Distinct("nontrivial", fmt.Sprintf("huge/%s/ws_top_bit=%v/ls_top_bit=%v", rel, ws>>63 == 1, ls>>63 == 1))
+	detail := map[string]any{"witness_size": ws, "log_size": ls, "err": fmt.Sprint(err), "get_calls": gets, "update_calls": updates, "proof_fetches": proofs, "observations": bad}
+	for _, b := range bad {
+		run.Violate("huge_sizes;"+rel+";unjustified_call", fmt.Sprintf("witness at %d, log at %d: %s", ws, ls, b), unit, detail)
+		break
+	}
+	switch rel {
+	case "ahead":
+		if err == nil || gets != 1 || updates != 0 || proofs != 0 {
+			run.Violate("huge_sizes;ahead_not_permanent", fmt.Sprintf("witness (%d) ahead of the log (%d): want one attempt, no proof fetch, no Update and an error; got err=%v after %d attempts, %d proof fetches, %d Updates", ws, ls, err, gets, proofs, updates), unit, detail)
+		}
+	default:
+		if err != nil || updates != 1 {
+			run.Violate("huge_sizes;justified_step_not_taken;"+rel, fmt.Sprintf("witness at %d, log at %d, nothing failing: FeedOnce returned %v after %d Updates", ws, ls, err, updates), unit, detail)
+		}
+	}
+}
+
+type funcWitness struct {
+	get    func() ([]byte, error)
+	update func(old uint64, cp []byte, p [][]byte) ([]byte, error)
+}
+
+func (f *funcWitness) GetLatestCheckpoint(context.Context, string) ([]byte, error) { return f.get() }
+func (f *funcWitness) Update(_ context.Context, _ string, old uint64, cp []byte, p [][]byte) ([]byte, error) {
+	return f.update(old, cp, p)
 }
 
 func cancelTest(run *ev.Run, unit int64, r *rand.Rand) {
